@@ -324,7 +324,7 @@ func init() {
 	ck := &run.Check{
 		Prop:  "C14",
 		Level: "exploration",
-		Rule: "for each case a directory with 1-4 persisted segments (one per batch; 5-700 keys, thorough up to 3000; fixed width / variable length / long-then-short / short-then-long / shared-prefix key sets, later segments overwrite and delete; a third of the directories also hold unresolved Merge operands, read back under the order-sensitive operator) is written once, then opened with 15 index settings (disabled; SegmentKeysIndexMaxBytes in {5,9,17,64,1000,100000} x MinKeyBytes in {1, median, huge}); under every setting Get of every present key, key+\\x00, truncated key, last byte +-1, below-first and above-last probes, and 40 range scans with bounds from the same pool, must equal the reference map. distinct_nontrivial = distinct (index shape recomputed with the public formula: none / <2 keys / >=2 keys, hop>1, truncated | number of segments) pairs.",
+		Rule: "for each case a directory with 1-4 persisted segments (one per batch; 5-700 keys, thorough up to 3000; fixed width / variable length / long-then-short / short-then-long / shared-prefix key sets / groups of 100-400 byte keys differing only in their last bytes, later segments overwrite and delete; a third of the directories also hold unresolved Merge operands, read back under the order-sensitive operator) is written once, then opened with 15 index settings (disabled; SegmentKeysIndexMaxBytes in {5,9,17,64,1000,100000} x MinKeyBytes in {1, median, huge}); under every setting Get of every present key, key+\\x00, truncated key, last byte +-1, below-first and above-last probes, and 40 range scans with bounds from the same pool, must equal the reference map. distinct_nontrivial = distinct (index shape recomputed with the public formula: none / <2 keys / >=2 keys, hop>1, truncated | number of segments) pairs.",
 		MinUnits:    6,
 		Assumptions: []string{"the index shape reported as coverage is recomputed from the published formula, not read from moss internals"},
 	}
